@@ -366,3 +366,60 @@ def standard_proof_stage(chk, props_files, deps_note=""):
             detail += "\n--- make log tail ---\n" + st["errors"]["coq"][-2500:]
         chk.add_broken("proof obligation: " + e.split(":")[0], detail)
     return st
+
+
+def generic_run(chk, props, corr=(), system=(), assumptions=()):
+    """corr: list of dicts {name, cmd: [harness args], stats: file, n_quick, n_thorough}
+       system: list of dicts {name, cmd, stats, n_quick, n_thorough, what}"""
+    st = standard_proof_stage(chk, props)
+    chk.assumptions += list(assumptions)
+    thorough = chk.tier == "thorough"
+    out = os.path.join(CASES, chk.pid)
+    os.makedirs(out, exist_ok=True)
+    for f in os.listdir(out):
+        os.remove(os.path.join(out, f))
+    if "harness_build" in st.get("errors", {}):
+        return
+    for c in corr:
+        n = c.get("n_thorough", 2000) if thorough else c.get("n_quick", 300)
+        rc, o = harness([c["cmd"], "-seed", str(chk.seed), "-n", str(n), "-out", out] + (["-thorough"] if thorough else []))
+        if rc != 0:
+            chk.add_broken("correspondence %s: harness failed" % c["name"], o)
+            continue
+        stats = json.load(open(os.path.join(out, c["stats"])))
+        files = stats["extra"]["files"]
+        mism, errs = run_case_files(files)
+        chk.coverage["correspondence"][c["name"]] = {"cases": stats["cases"], "distinct": stats["distinct"],
+                                                      "histogram": stats["histogram"], "disagreements": sum(len(m[1]) for m in mism)}
+        chk.coverage["samples"] += stats["samples"][:4]
+        for e in errs:
+            chk.add_broken("correspondence %s: case file does not evaluate" % c["name"], e)
+        for f, idx in mism:
+            for i in idx[:3]:
+                chk.add_broken("correspondence %s: model and implementation disagree" % c["name"], case_text(f, i)[:3000])
+        for m in stats.get("mismatches", []):
+            chk.failing_input(m)
+    for s in system:
+        n = s.get("n_thorough", 5000) if thorough else s.get("n_quick", 600)
+        rc, o = harness([s["cmd"], "-seed", str(chk.seed), "-n", str(n), "-out", out] + (["-thorough"] if thorough else []))
+        if rc != 0:
+            chk.add_broken("system-level %s: harness failed" % s["name"], o)
+            continue
+        stats = json.load(open(os.path.join(out, s["stats"])))
+        chk.coverage["system_level"][s["name"]] = {"what": s.get("what", ""), "cases": stats["cases"], "distinct": stats["distinct"],
+                                                   "histogram": stats["histogram"], "mismatches": stats["mismatch_count"], "extra": {k: v for k, v in stats.get("extra", {}).items() if k != "files"}}
+        chk.coverage["samples"] += stats["samples"][:4]
+        for m in stats["mismatches"]:
+            chk.failing_input(m)
+    for f in os.listdir(out):
+        if f.endswith(".v"):
+            os.remove(os.path.join(out, f))
+
+
+def generic_replay(path):
+    data = json.load(open(path))
+    for rec in data.get("failing_inputs", [])[:5]:
+        print(json.dumps(rec)[:4000])
+    for b in data.get("broken", [])[:5]:
+        print(json.dumps(b)[:2000])
+    return 0
